@@ -429,6 +429,61 @@ theorem diagnostics_outside_undamaged_declarations (A B : List Token) (progA pro
   rw [hmid]
   simp
 
+
+theorem relDecl_offset (d : Ref GlobalDecl) : (Grammar.relDecl d).offset = d.val.info.range.lo := by
+  obtain ⟨v, o⟩ := d
+  cases v <;> rfl
+
+/-- **A syntax error stays contained in the declaration it occurs in** — both sides at once.  `B` is any token
+    sequence that starts with declarations `front` the grammar derives (`DeclsPrefix`), each starting in front of
+    position `eB`, and that from `eB` on (directly behind a token) goes on exactly like the undamaged sequence `A` from
+    the start of its declaration `d0`.  Then every program `parser::parse` returns for `B` is
+    `front` (verbatim) `++ mid ++` (the declarations `d0 :: post` of the undamaged program, offsets moved): whatever
+    the damaged stretch in between is parsed into, the declarations on both sides are parsed exactly as without it. -/
+theorem damage_is_contained (A B : List Token) (progA progB : Program)
+    (hA : Grammar.parseAbs A = some progA) (hB : Parse.parse B = .ok progB)
+    (pre post : List (Ref GlobalDecl)) (d0 : Ref GlobalDecl) (hsp : progA.decls = pre ++ d0 :: post)
+    (eB : Nat) (hsuf : B.drop eB = A.drop d0.val.info.range.lo) (hfB : Fresh B.toArray eB)
+    (front : List (Ref GlobalDecl)) (rest : Grammar.Toks)
+    (hfront : DeclsPrefix ⟨B.toArray⟩ (tsFrom B.toArray 0) front rest)
+    (hbefore : ∀ d ∈ front, d.val.info.range.lo < eB) :
+    ∃ mid, progB.decls = front.map Grammar.relDecl ++ mid ++
+      ((d0 :: post).map Grammar.relDecl).map (fun r => ⟨r.val, r.offset - d0.val.info.range.lo + eB⟩) := by
+  obtain ⟨preB, h1⟩ := declarations_behind_damage_as_before A B progA progB hA hB pre post d0 hsp eB hsuf hfB
+  obtain ⟨more, h2⟩ := prefix_verbatim B front rest hfront progB hB
+  -- the leading declarations end in front of the copies
+  have hlen : front.length ≤ preB.length := by
+    rcases Nat.lt_or_ge preB.length front.length with hgt | hge
+    case inr => exact hge
+    exfalso
+    -- the element at index `preB.length`, read from both descriptions
+    have e1 : progB.decls[preB.length]? = some (Grammar.relDecl (front[preB.length])) := by
+      rw [h2, List.getElem?_append_left (by simpa using hgt)]
+      simp [hgt]
+    have e2 : progB.decls[preB.length]? =
+        some ⟨(Grammar.relDecl d0).val, (Grammar.relDecl d0).offset - d0.val.info.range.lo + eB⟩ := by
+      rw [h1, List.getElem?_append_right (Nat.le_refl _)]
+      simp
+    rw [e1] at e2
+    simp only [Option.some.injEq] at e2
+    have hoff := congrArg Ref.offset e2
+    simp only [relDecl_offset] at hoff
+    have := hbefore (front[preB.length]) (List.getElem_mem _)
+    omega
+  -- hence they are an initial part of what stands in front of the copies
+  have h3 : front.map Grammar.relDecl ++ more = preB ++
+      ((d0 :: post).map Grammar.relDecl).map (fun r => (⟨r.val, r.offset - d0.val.info.range.lo + eB⟩ : Ref GlobalDecl)) := by
+    rw [← h2, h1]
+  obtain ⟨mid, hmid⟩ : ∃ mid, preB = front.map Grammar.relDecl ++ mid := by
+    refine ⟨preB.drop front.length, ?_⟩
+    have ht : preB.take front.length = front.map Grammar.relDecl := by
+      have := congrArg (List.take front.length) h3
+      simp only [List.take_append_of_le_length (by simp : front.length ≤ (front.map Grammar.relDecl).length),
+        List.take_append_of_le_length hlen] at this
+      rw [this.symm.trans (List.take_of_length_le (by simp))]
+    rw [← ht, List.take_append_drop]
+  exact ⟨mid, by rw [h1, hmid]⟩
+
 end
 
 end Spl.C05
